@@ -326,7 +326,7 @@ func stringsIntrinsic(name string, fn *ssa.Function) intrinsicFn {
 			if t, ok := a[0].(*Term); ok && t.IsConc() {
 				n, err := strconv.ParseInt(t.C.(string), 10, 64)
 				if err != nil {
-					return tup(mkInt(0), x.newErr("strconv: "+err.Error()))
+					return tup(mkInt(n), x.newErr("strconv: "+err.Error())) // like strconv: 0 on syntax errors, the clamped value on range errors
 				}
 				return tup(mkInt(n), nilErr)
 			}
